@@ -340,7 +340,9 @@ pub fn check_c15(ctx: &Ctx) -> i32 {
     let (mut tally, mut meta) = collect_file_prop(ctx, FileProp::C15);
     let (nvm, nam) = if ctx.thorough { (4, 4) } else { (3, 3) };
     const POINTS: usize = 6;
-    let step = 0.02f64; // 1800 ticks
+    // lattice spacings: 1800 ticks (ordinary), 30 ticks (several points inside one millisecond:
+    // orderings that are only right at a coarser clock), and 1 tick in the thorough tier
+    let steps: Vec<f64> = if ctx.thorough { vec![0.02, 30.0 / 90000.0, 1.0 / 90000.0] } else { vec![0.02, 30.0 / 90000.0] };
     let mut items: Vec<(Cfg, Vec<usize>)> = vec![];
     for codec in if ctx.thorough { vec![oracle::frames::VCodec::H264, oracle::frames::VCodec::Vp9] } else { vec![oracle::frames::VCodec::H264] } {
         for ac in [oracle::frames::ACodec::AacLc, oracle::frames::ACodec::Opus] {
@@ -356,6 +358,7 @@ pub fn check_c15(ctx: &Ctx) -> i32 {
     let t2 = par_items(&items, ctx.seed, |idx, (cfg, vts), t| {
         let mut k = 0u64;
         let nv = vts.len();
+        for &step in &steps {
         for na in 1..=nam {
             for ats in increasing(POINTS, na, false, vts[0]) {
                 for order in hist::orders(nv, na) {
@@ -377,11 +380,12 @@ pub fn check_c15(ctx: &Ctx) -> i32 {
                 }
             }
         }
+        }
     });
     tally.count("lattice_histories", t2.evaluations);
     tally.merge(t2);
     tally.merge(scaling_part(ctx, FileProp::C15));
-    meta.rule = format!("(1) {} (2) timestamp lattice: video timestamps = every strictly increasing choice of <= {nvm} points of {{0,1,..,5}} x 0.02 s, audio timestamps = every non-decreasing choice of <= {nam} points not before the first video point (so cross-track equalities at every index combination occur), every admissible submission order (bursts, all-video-first, alternation), {{AAC, Opus}} x both layouts: storage order by file offset must equal the merge by (tick, video first, sample number) (3) scaling family: every video count 1..={} x three audio cadences with cross-track ties x three submission shapes (up to ~300 samples per file)", meta.rule, if ctx.thorough { 120 } else { 48 });
+    meta.rule = format!("(1) {} (2) timestamp lattice: video timestamps = every strictly increasing choice of <= {nvm} points of {{0,1,..,5}} x spacing {{0.02 s, 30 ticks (1 tick in the thorough tier)}}, audio timestamps = every non-decreasing choice of <= {nam} points not before the first video point (so cross-track equalities at every index combination occur), every admissible submission order (bursts, all-video-first, alternation), {{AAC, Opus}} x both layouts: storage order by file offset must equal the merge by (tick, video first, sample number) (3) scaling family: every video count 1..={} x three audio cadences with cross-track ties x three submission shapes (up to ~300 samples per file)", meta.rule, if ctx.thorough { 120 } else { 48 });
     finish(ctx, &tally, meta)
 }
 
@@ -607,6 +611,62 @@ pub fn scaling_histories(max_video: usize) -> Vec<(Cfg, Vec<Op>, String)> {
         out.push((cfg, ops, format!("{n} samples per track")));
     }
     out
+}
+
+/// "one track per configured stream": audio codec None configures no stream, whether it is the
+/// only audio call or switches a previously configured codec off again (C02's track clause on
+/// builder paths the Cfg type cannot express).
+pub fn audio_none_part() -> Tally {
+    use muxide::api::{AudioCodec, MuxerBuilder};
+    let mut t = Tally::default();
+    let mut k = 0u64;
+    for codec in oracle::frames::VCODECS {
+        for fast in [true, false] {
+            for variant in 0..4usize {
+                for nframes in [0usize, 2] {
+                    k += 1;
+                    t.evaluations += 1;
+                    let sink = crate::run::RecSink::default();
+                    let st = sink.0.clone();
+                    let mut b = MuxerBuilder::new(sink).video(crate::run::vcodec(codec), 640, 480, 30.0).with_fast_start(fast);
+                    b = match variant {
+                        0 => b.audio(AudioCodec::None, 48000, 2),
+                        1 => b.set_audio_track(AudioCodec::None, 0, 0),
+                        2 => b.audio(AudioCodec::Opus, 48000, 2).audio(AudioCodec::None, 48000, 2),
+                        _ => b.set_audio_track(AudioCodec::Aac(muxide::api::AacProfile::Lc), 44100, 1).set_audio_track(AudioCodec::None, 0, 0),
+                    };
+                    let cfg = Cfg::basic(codec, None, fast);
+                    let r = oracle::report::guarded(|| {
+                        let mut m = b.build().map_err(|e| e.to_string())?;
+                        for i in 0..nframes {
+                            let (d, _) = oracle::frames::video_frame(codec, i == 0, i == 0, i as u32 + 1, 5);
+                            m.write_video(i as f64 / 30.0, &d, i == 0).map_err(|e| e.to_string())?;
+                        }
+                        m.finish_in_place().map_err(|e| e.to_string())
+                    });
+                    let case = || json!({"engine": "E1-audio-none", "codec": codec, "fast_start": fast, "variant": variant, "frames": nframes});
+                    match r {
+                        Err(p) => t.violation("C02/audio-none/panic", (4_000_000, k), || format!("{codec:?} variant {variant}: {p}"), case),
+                        Ok(Err(e)) => {
+                            // zero frames of a codec without a default configuration may be refused
+                            if nframes > 0 {
+                                t.violation("C02/audio-none/refused", (4_000_000, k), || format!("{codec:?} variant {variant}: {e}"), case);
+                            }
+                        }
+                        Ok(Ok(())) => {
+                            let bytes = st.borrow().bytes.clone();
+                            t.outcome(oracle::report::h64(&bytes));
+                            let m = parse_movie(&bytes, "prog");
+                            for (sig, detail) in fileck::c02_progressive(&m, &cfg) {
+                                t.violation(&format!("C02/audio-none/{}", stable_sig(&sig)), (4_000_000, k), || format!("{codec:?} fast {fast}: audio codec None (variant {variant}: 0/1 = only call, 2/3 = after a real codec) must configure no audio stream: {detail}"), case);
+                            }
+                        }
+                    }
+                }
+            }
+        }
+    }
+    t
 }
 
 pub fn scaling_part(ctx: &Ctx, p: FileProp) -> Tally {
